@@ -12,6 +12,7 @@ import datetime
 import decimal
 import importlib
 import io
+import pydantic
 import typing
 import uuid
 import itertools
@@ -246,13 +247,29 @@ def _jsonable(v):
     return json.loads(json.dumps(v, default=to_jsonable_python))
 
 
+def _converted(tree):
+    """the variables the statement speaks of: UNSET top-level entries dropped, input models as objects of their set fields under the
+    GraphQL names (aliases), lists item by item; an Upload stays the Upload object it is - wherever it sits"""
+    def conv(v):
+        if isinstance(v, pydantic.BaseModel):
+            out = {}
+            for name, info in type(v).model_fields.items():
+                if name in v.model_fields_set:
+                    out[info.alias or name] = conv(getattr(v, name))
+            return out
+        if isinstance(v, list):
+            return [conv(x) for x in v]
+        return v
+    return {k: conv(v) for k, v in tree.items() if v is not BM.UNSET}
+
+
 def _check_wire(tree, seen, client, text=None):
     text = QUERY_TEXT if text is None else text
     bad = []
     if len(seen) != 1:
         return ["exactly-one-request"]
     req = seen[0]
-    conv = client._convert_dict_to_json_serializable(tree) if tree else {}
+    conv = _converted(tree) if tree else {}        # (written from the statement, not taken from the client under check)
     pos = list(positions(conv))
     if req.headers.get("x-t") != "1" or req.method != "POST":
         bad.append("caller-headers-merged/post")
